@@ -69,6 +69,7 @@ def cases() -> Any:
         # (a task waiting for a sub-task, kicking while the broker is down, rejecting) - all of them are failures
         subclass=st.sampled_from([False, False, True]),
         store_prefill=st.sampled_from([None, None, 1, 2, 3]),
+        warmup=st.sampled_from([False, False, True]),
         fail_kind=st.sampled_from(["ValueError", "ValueError", "KeyError", "MyBase", "CancelledError", "SystemExit", "EmptyBatchError", "TaskiqResultTimeoutError", "SendTaskError", "TaskRejectedError", "ResultGetError"]),
         # a second call of the same task handled by the same middleware instance (own labels, own outcome sequence)
         second=st.one_of(st.none(), st.none(), st.fixed_dictionaries(dict(
@@ -182,7 +183,9 @@ def run_case(c: Dict[str, Any]) -> Outcome:
         if c.get("subclass"):
             # a project-wide subclass that only inherits the hooks (e.g. to change constructor defaults)
             mw_cls = type("AppRetryMiddleware", (SimpleRetryMiddleware,), {"__doc__": "inherits on_error"})
-        b.add_middlewares(mw_cls(default_retry_count=c["dflt_count"], default_retry_label=c["dflt_label"], no_result_on_retry=c["nror"]))
+        the_mw = mw_cls(default_retry_count=c["dflt_count"], default_retry_label=c["dflt_label"], no_result_on_retry=c["nror"])
+        if not c.get("warmup"):
+            b.add_middlewares(the_mw)
         seen: List[Any] = []
 
         def fresh_token() -> str:
@@ -211,6 +214,20 @@ def run_case(c: Dict[str, Any]) -> Outcome:
         t.__module__ = __name__
         b.register_task(t, task_name="t")
         r = Receiver(b, max_async_tasks=5, run_startup=False)
+        if c.get("warmup"):
+            # the worker has already processed a failing message when the retry middleware is installed (configuration in a
+            # start-up hook, a broker assembled step by step): the middleware list is what it is when a failure happens
+            async def warm() -> None:
+                raise ValueError("warm-up failure")
+
+            warm.__module__ = __name__
+            b.register_task(warm, task_name="warm")
+            await AsyncKicker("warm", b, {}).with_task_id("W0").kiq()
+            try:
+                await r.callback(b.q.pop(0).message)
+            except BaseException:  # noqa: BLE001
+                pass
+            b.add_middlewares(the_mw)
         for n, cl in enumerate(calls):
             labels = dict(cl["user"])
             if cl["roe"] is not None:
@@ -303,7 +320,7 @@ def run_case(c: Dict[str, Any]) -> Outcome:
         classes += [f"execs={min(me, 4)}{'+' if me > 4 else ''}"] + [x for x, f in (
             ("retry_flag_str", isinstance(cl["roe"], str)), ("max_retries_str", bool(cl["mr"] and cl["mr"][0] == "str")),
             ("max_retries_0_or_1", bool(cl["mr"] and cl["mr"][1] in (0, 1)))) if f]
-    if any(tm.task_id not in ("T0", "T1") for m, tm in msgs) or any(s[2] not in ("T0", "T1") for s in saves):
+    if any(tm.task_id not in ("T0", "T1") for m, tm in msgs) or any(s[2] not in ("T0", "T1", "W0") for s in saves):
         out.add("C11.b", "task id changed between attempts")
     out.nontrivial = nontriv
     out.classes = sorted(set(classes)) + (["two_calls"] if len(calls) > 1 else [])
